@@ -1,5 +1,6 @@
 """C20 plugins optional and isolated - see DESIGN.md section 4 (C20)."""
 import ast
+import re
 
 from .common import Ctx, Finding, Result, need, TRUSTED_LOGGING, P
 from ..index import norm
@@ -190,6 +191,37 @@ def run(ctx: Ctx, tier: str) -> Result:
             res.ok("C20.LOAD", {"append only when active": norm(a), "at": lp.loc(a)})
         else:
             res.fail(Finding("C20.LOAD", lp.qname, a, lp.loc(a), "plugin appended without the is_active() test holding"))
+    # the switch itself: a plugin is inactive exactly when its PLUGIN_<NAME> setting is text that reads as false
+    ia = ctx.prog.func("deep.api.plugin.Plugin.is_active")
+    rets_ = [r for r in ctx.types.nodes_in(ia, ast.Return) if r.value is not None]
+    conv = [r for r in rets_ if isinstance(r.value, ast.Call) and norm(r.value.func).endswith("str2bool")]
+    trues = [r for r in rets_ if isinstance(r.value, ast.Constant) and r.value.value is True]
+    okia = len(conv) == 1 and len(rets_) == len(conv) + len(trues)
+    if okia:
+        src_ = ctx.expand.expand(conv[0].value.args[0], ia)
+        okia = bool(src_) and all("getattr(@self.config" in x and "plugin_" in x.lower() for x in src_)
+        for r in trues:
+            cs_ = [(norm(c_), pol) for c_, pol in paths.conditions(ctx.prog, r, ia)]
+            okia = okia and len(cs_) == 1 and cs_[0][1] and re.fullmatch(r"\w+ is None", cs_[0][0]) is not None
+        cs2 = [(norm(c_), pol) for c_, pol in paths.conditions(ctx.prog, conv[0], ia)]
+        okia = okia and all((not pol and re.fullmatch(r"\w+ is None", c_) is not None) for c_, pol in cs2)
+    if okia:
+        res.ok("C20.LOAD", {"is_active": "str2bool(PLUGIN_<NAME> setting), active when the setting is absent"})
+    else:
+        res.fail(Finding("C20.LOAD", ia.qname, rets_[0] if rets_ else "<return>", ia.loc(), "Plugin.is_active does not answer str2bool(<PLUGIN_NAME setting>) (true only by default when the "
+                         "setting is absent): a plugin switched off by configuration is loaded, or an enabled one is skipped"))
+    # configured plugins are used unless none were given
+    cp_ = lp.params[1] if len(lp.params) > 1 else None
+    for kind, b in (ctx.types.local_bindings(lp, cp_) if cp_ else []):
+        if kind != "assign":
+            continue
+        st_ = paths.stmt_of(ctx.prog, b[1])
+        cs_ = [(norm(c_), pol) for c_, pol in paths.enclosing_conditions(ctx.prog, st_, lp)]
+        if cs_ in ([("%s is None" % cp_, True)], [("not %s" % cp_, True)]) and isinstance(b[1], (ast.List, ast.Tuple)) and not b[1].elts:
+            res.ok("C20.LOAD", {"configured plugin list replaced by [] only when absent": lp.loc(st_)})
+        else:
+            res.fail(Finding("C20.LOAD", lp.qname, st_, lp.loc(st_), "the configured plugin list `%s` is replaced when %s: configured plugins are not loaded" % (
+                cp_, " and ".join(("" if pol else "not ") + c_ for c_, pol in cs_) or "always")))
     # the set of plugins loaded is a function of the configuration: no in-place mutation of module-level lists
     mod = lp.module
     consts = {n for n, v in mod.consts.items() if isinstance(v, (ast.List, ast.Dict, ast.Set))}
